@@ -261,6 +261,7 @@ class Interp:
         self.path_notes = []
         self.abstract_returns = []
         self.path_ambient = []  # process-global sources of nondeterminism read on this path
+        self.output_log = []  # what the program handed to output / serialisation functions on this path
         for ax in getattr(self, "axioms", []):
             self.solver.add(ax)
 
